@@ -304,7 +304,7 @@ func (c *SimConn) Write(b []byte) (int, error) {
 	nodeadline := c.wdeadline == 0
 	c.wmu.Unlock()
 	hazard := false
-	if c.owner != nil && !raceTier && nodeadline && len(b) > 0 && smtp.VerifConnLocked(c.owner) && heldByCaller(c.owner) {
+	if c.owner != nil && !raceTier && nodeadline && len(b) > 0 && heldByCaller(c.owner) {
 		// A write with no deadline, issued while the Conn's mutex is held: if the peer stops
 		// reading it never returns, and Server.Close, which needs the mutex to end the
 		// connection, never returns either. (Probed with no harness lock held.)
